@@ -241,26 +241,99 @@ def keyOf (p : List Byte) : Key :=
   | some cs => ⟨true, cs⟩
   | none => ⟨false, (splitSlash p).filter fun s => !(s.isEmpty)⟩
 
+/-- the path-keyed part of `Vfs`: `file_id_map` / `file_path_map` (one association list, they are
+inverse to each other) and `file_data` (per id: the content, here a tag, or nothing) -/
 structure Vfs where
-  count : Nat
   ids : List (Key × Nat)
+  data : List (Option Nat)
   deriving Repr
 
-def Vfs.empty : Vfs := ⟨0, []⟩
+def Vfs.empty : Vfs := ⟨[], []⟩
 
 def lookup (k : Key) : List (Key × Nat) → Option Nat
   | [] => none
   | (k', i) :: rest => if k = k' then some i else lookup k rest
 
-/-- `Vfs::file_id`: a URI without a file path gets a fresh id each time; otherwise the id bound to
-the decoded path, allocating when absent -/
+/-- `Vfs::file_id`: a URI without a file path gets a fresh slot each time; otherwise the id bound to
+the decoded path, allocating a slot when absent -/
 def Vfs.fileId (v : Vfs) (path : Option (List Byte)) : Nat × Vfs :=
   match path with
-  | none => (v.count, ⟨v.count + 1, v.ids⟩)
+  | none => (v.data.length, ⟨v.ids, v.data ++ [none]⟩)
   | some p =>
     match lookup (keyOf p) v.ids with
     | some i => (i, v)
-    | none => (v.count, ⟨v.count + 1, (keyOf p, v.count) :: v.ids⟩)
+    | none => (v.data.length, ⟨(keyOf p, v.data.length) :: v.ids, v.data ++ [none]⟩)
+
+/-- `Vfs::get_file_id` -/
+def Vfs.getFileId (v : Vfs) (path : Option (List Byte)) : Option Nat :=
+  match path with
+  | none => none
+  | some p => lookup (keyOf p) v.ids
+
+/-- `Vfs::set_file_content` -/
+def Vfs.setContent (v : Vfs) (path : Option (List Byte)) (c : Option Nat) : Nat × Vfs :=
+  let r := v.fileId path
+  (r.1, ⟨r.2.ids, r.2.data.set r.1 c⟩)
+
+/-- `Vfs::remove_file`: the path is forgotten, its slot emptied -/
+def Vfs.removeFile (v : Vfs) (path : Option (List Byte)) : Option Nat × Vfs :=
+  match v.getFileId path with
+  | none => (none, v)
+  | some i => (some i, ⟨v.ids.filter (fun e => e.2 != i), v.data.set i none⟩)
+
+/-- ids whose slot holds content (`get_all_local_file_ids`; no remote files in the model) -/
+def localIdsFrom : Nat → List (Option Nat) → List Nat
+  | _, [] => []
+  | i, none :: rest => localIdsFrom (i + 1) rest
+  | i, some _ :: rest => i :: localIdsFrom (i + 1) rest
+
+def Vfs.localIds (v : Vfs) : List Nat := localIdsFrom 0 v.data
+
+/-- `get_file_id` then `get_file_content` -/
+def Vfs.read (v : Vfs) (path : Option (List Byte)) : Option Nat :=
+  match v.getFileId path with
+  | none => none
+  | some i => (v.data.getD i none)
+
+inductive Op where
+  | fileId | getFileId | removeFile | read | clear | localIds
+  | setContent (c : Option Nat)
+  deriving DecidableEq, Repr
+
+inductive Out where
+  | id (i : Nat)
+  | optId (i : Option Nat)
+  | content (c : Option Nat)
+  | ids (l : List Nat)
+  | unit
+  deriving DecidableEq, Repr
+
+/-- one operation addressed by a decoded path (`clear` and `localIds` ignore it) -/
+def Vfs.step (v : Vfs) (op : Op) (path : Option (List Byte)) : Out × Vfs :=
+  match op with
+  | .fileId => let r := v.fileId path; (.id r.1, r.2)
+  | .getFileId => (.optId (v.getFileId path), v)
+  | .removeFile => let r := v.removeFile path; (.optId r.1, r.2)
+  | .read => (.content (v.read path), v)
+  | .clear => (.unit, Vfs.empty)
+  | .localIds => (.ids v.localIds, v)
+  | .setContent c => let r := v.setContent path c; (.id r.1, r.2)
+
+def Vfs.run (v : Vfs) : List (Op × Option (List Byte)) → List Out
+  | [] => []
+  | (op, p) :: rest => (v.step op p).1 :: (v.step op p).2.run rest
+
+/-- decode the URI strings of a history; `none` when one is outside the model's domain -/
+def decodeHistory : List (Op × List Byte) → Option (List (Op × Option (List Byte)))
+  | [] => some []
+  | (op, s) :: rest =>
+    match strToPath s, decodeHistory rest with
+    | .ok p, some r => some ((op, p) :: r)
+    | _, _ => none
+
+/-- a history of operations, each addressed by a URI *string* -/
+def Vfs.runStr (v : Vfs) (h : List (Op × List Byte)) : Option (List Out) :=
+  (decodeHistory h).map v.run
 
 end Uri
 
